@@ -326,3 +326,6 @@ Section SplineBuild.
 
 End SplineBuild.
 
+
+Arguments mkSpline {T} sp_a sp_b sp_ext.
+Arguments sp_a {T} s. Arguments sp_b {T} s. Arguments sp_ext {T} s.
